@@ -1,3 +1,7 @@
 #!/bin/sh
 # Offline setup: pre-build every harness/replayer for the current /repo tree (cached under .build/<hash>).
-cd "$(dirname "$0")" && exec python3 lib/prebuild.py
+# The checks build on demand as well; a second attempt covers transient failures (e.g. a concurrent clean-up of stale build dirs).
+cd "$(dirname "$0")" || exit 1
+python3 lib/prebuild.py && exit 0
+echo "setup: prebuild failed once, retrying" >&2
+exec python3 lib/prebuild.py
